@@ -24,8 +24,17 @@ from .ops import Unsupported, truth, b2v, i2v, zint, zbool, zseq, to_val, to_vl,
 # ---------------------------------------------------------------------------------------------
 # run-time structures
 # ---------------------------------------------------------------------------------------------
+import re
+INTERNAL_TRACE = re.compile(r"\b(n_callees|callee_arg|callee_result|n_events|all_calls_from_callee|all_getattr_on)\b")
+
+
 class CheckerError(Exception):
     """stale contract, unresolved call, ... (exit code 3)"""
+
+
+class SArr(Sym):
+    """contents of a dict object: a z3 array Val -> Val (map) or Val -> Bool (has)"""
+    kind = "array"
 
 
 class Raised(object):
@@ -51,6 +60,14 @@ class Brk(object):
 
 class Cont(object):
     pass
+
+
+class AnyException(Exception):
+    """representative of `some Exception subclass not named in the function under analysis`"""
+
+
+class AnyBaseException(BaseException):
+    """representative of `some BaseException that is not an Exception` (other than the named ones)"""
 
 
 _oid_counter = [0]
@@ -280,6 +297,8 @@ class Executor(object):
             return o
         if sort == "none":
             return None
+        if sort == "dict":
+            return Obj(dict, name, "dict")
         if sort == "any":
             return SVal(fresh(name, Val))
         if sort.startswith("obj:"):
@@ -311,6 +330,11 @@ class Executor(object):
         if obj.kind == "joinlist":
             v = {"joined": SBytes(z3.Const("%s.joined#%d" % (obj.name, obj.oid), Bytes)),
                  "n": SInt(z3.Const("%s.n#%d" % (obj.name, obj.oid), Int))}[field]
+            self.field_init[k] = v
+            return v
+        if obj.kind == "dict" and field in ("map", "has"):
+            rng = Val if field == "map" else Bool
+            v = SArr(z3.Const("%s.%s#%d" % (obj.name, field, obj.oid), z3.ArraySort(Val, rng)))
             self.field_init[k] = v
             return v
         decl = self.field_sort(obj, field)
@@ -417,6 +441,18 @@ class Executor(object):
 
     def finish_path(self, st, out, pre, contract, beh):
         lab = self.path_label(st)
+        if contract.effect_free:
+            self.oblige(st, "effect-free@%s" % lab, z3.BoolVal(len(st.trace) == 0), props=self.all_props(beh),
+                        kind="post", note="the contract declares this function free of ghost events (calls, accesses)")
+        ncalls = len([e for e in st.trace if e[0] == "Call"])
+        eff = beh.effects or {}
+        nrm = eff.get("normal", 0)
+        nrm = nrm if isinstance(nrm, tuple) else (nrm, nrm)
+        lo, hi = eff.get("raise", (0, 0)) if isinstance(out, Raised) else nrm
+        if beh.effects is not None or ncalls:
+            self.oblige(st, "effects-shape@%s" % lab, z3.BoolVal(lo <= ncalls <= hi), props=self.all_props(beh), kind="post",
+                        note="number of direct calls of unknown callables on this exit must be within the declared "
+                             "effects (%d..%d), found %d" % (lo, hi, ncalls))
         if isinstance(out, Raised):
             cls = out.cls
             allowed = None
@@ -520,6 +556,8 @@ class Executor(object):
         if len(parts) == 1:
             if isinstance(v, Obj) and v.kind == "joinlist":
                 return {(v.oid, "joined"), (v.oid, "n")}
+            if isinstance(v, Obj) and v.kind == "dict":
+                return {(v.oid, "map"), (v.oid, "has")}
             if isinstance(v, Obj):
                 return {(v.oid, f) for f in self.all_fields(v)}
             return set()
@@ -1245,12 +1283,34 @@ class Executor(object):
             else:
                 raise Unsupported("unary op")
 
+    def narrow(self, st, v, kind, node, what):
+        """a dynamic value used where the operation is only modelled for one static kind: the value must
+        provably be of that kind here (obligation), then it is projected"""
+        if not isinstance(v, SVal):
+            return v
+        test, proj, W = {"bool": (Val.is_VBool, Val.vb, SBool), "str": (Val.is_VStr, Val.vs, SStr),
+                         "bytes": (Val.is_VBytes, Val.vby, SBytes), "int": (Val.is_VInt, Val.vi, SInt)}[kind]
+        self.oblige(st, "dynamic-type:%s is %s@L%d[%s]" % (what, kind, self.rel_line(node), self.path_label(st)),
+                    test(v.z), props=self.all_props(self.cur[1]), kind="pre",
+                    note="operation on a dynamically typed value is modelled only for this type")
+        st.assume(test(v.z))
+        return W(proj(v.z))
+
     def ex_BinOp(self, st, e):
         for st1, vs in self.ev_seq(st, [e.left, e.right]):
             if isinstance(vs, Raised):
                 yield st1, vs
                 continue
-            for r in self.with_errs(st1, ops.binop(e.op, vs[0], vs[1]), e):
+            a, b = vs
+            if isinstance(a, SVal) or isinstance(b, SVal):
+                if isinstance(e.op, (ast.BitOr, ast.BitAnd)):
+                    a, b = self.narrow(st1, a, "bool", e, "operand"), self.narrow(st1, b, "bool", e, "operand")
+                elif isinstance(e.op, ast.Add):
+                    other = b if isinstance(a, SVal) else a
+                    k = "str" if ops.is_strlike(other) else "bytes" if ops.is_byteslike(other) else \
+                        "int" if ops.is_intlike(other) else "str"
+                    a, b = self.narrow(st1, a, k, e, "operand"), self.narrow(st1, b, k, e, "operand")
+            for r in self.with_errs(st1, ops.binop(e.op, a, b), e):
                 yield r
 
     def with_errs(self, st, res, node):
@@ -1448,6 +1508,38 @@ class Executor(object):
         for r in self.lib.call_builtin(self, st, f, args, kwargs, node):
             yield r
 
+    def exc_universe(self):
+        """exception classes the function under analysis distinguishes (named in its handlers, `is` tests or
+        its contract): an unknown callee may raise each of them, besides the two generic representatives"""
+        if getattr(self, "_universe_for", None) is self.cur[4]:
+            return self._universe
+        classes = []
+        mod = self.cur[3]
+        import builtins
+        for n in ast.walk(self.cur[4]):
+            name = n.id if isinstance(n, ast.Name) else None
+            if isinstance(n, ast.Attribute) and isinstance(n.value, ast.Name):
+                base = getattr(mod, n.value.id, None)
+                c = getattr(base, n.attr, None) if isinstance(base, types.ModuleType) else None
+            elif name:
+                c = getattr(mod, name, None) if hasattr(mod, name) else getattr(builtins, name, None)
+            else:
+                continue
+            if isinstance(c, type) and issubclass(c, BaseException) and c not in classes and \
+                    c not in (Exception, BaseException):
+                classes.append(c)
+        for b in self.cur[0].behaviours.values():
+            for ename in b.raises:
+                try:
+                    c = self.spec.exc_class(ename, mod)
+                except Exception:
+                    continue
+                if isinstance(c, type) and c not in classes and c not in (Exception, BaseException):
+                    classes.append(c)
+        self._universe_for = self.cur[4]
+        self._universe = classes
+        return classes
+
     def call_key(self, name):
         k = self.call_ordinals.get(name, 0)
         return "%s#%d" % (name, k)
@@ -1607,24 +1699,57 @@ class Executor(object):
             st.assume(z)
         self.used_callee_clauses.add((c.target, bname))
         # exceptional exits
+        import re as _re
         for ename, spec in beh.raises.items():
-            ecls = self.spec.exc_class(ename, sys.modules[f.__module__])
-            b = st.fork().label("L%d:%s raises %s" % (ln, name, ename))
-            self.havoc_modifies(b, env, spec.get("modifies", beh.modifies), "%s@L%d" % (name, ln))
-            for cond in ([spec["when"]] if spec.get("when") else []) + ([spec["only_when"]] if spec.get("only_when") else []):
-                z, facts = self.spec.evaluate_bool(self, cond, pre, pre, env)
-                b.pc.extend(facts)
-                b.assume(z)
-            exc = ExcObj(ecls)
-            self.apply_sets(b, pre, env, spec.get("sets", {}))
-            before = list(b.pc)
-            for sx in spec.get("state", []):
-                z, facts = self.spec.evaluate_bool(self, sx, b, pre, dict(env, exc=exc))
-                b.pc.extend(facts)
-                b.assume(z)
-            if self.feasible(b):
-                self.canary(b, "L%d:%s raises %s" % (ln, name, ename), before)
-                yield b, Raised(ecls, exc)
+            ecls0 = self.spec.exc_class(ename, sys.modules[f.__module__])
+            broad = ecls0 in (Exception, BaseException)
+            if broad:
+                # "some exception": one path per representative class the caller or the callee's clauses distinguish
+                named = []
+                import builtins as _b
+                for sx in spec.get("state", []):
+                    for m in _re.findall(r"exc_is\(exc, '([A-Za-z_.]+)'\)", sx):
+                        k = getattr(_b, m, None)
+                        if isinstance(k, type) and k not in named:
+                            named.append(k)
+                classes = [AnyException] + ([AnyBaseException] if ecls0 is BaseException else []) + \
+                    [k for k in list(self.exc_universe()) + named if issubclass(k, ecls0)]
+                seen = []
+                classes = [k for k in classes if not (k in seen or seen.append(k))]
+            else:
+                classes = [ecls0]
+            for ecls in classes:
+                b = st.fork().label("L%d:%s raises %s" % (ln, name, ecls.__name__))
+                self.havoc_modifies(b, env, spec.get("modifies", beh.modifies), "%s@L%d" % (name, ln))
+                for cond in ([spec["when"]] if spec.get("when") else []) + ([spec["only_when"]] if spec.get("only_when") else []):
+                    z, facts = self.spec.evaluate_bool(self, cond, pre, pre, env)
+                    b.pc.extend(facts)
+                    b.assume(z)
+                exc = ExcObj(ecls)
+                self.apply_sets(b, pre, env, spec.get("sets", {}))
+                lo, hi = (beh.effects or {}).get("raise", (0, 0))
+                for ncalls in range(lo, hi + 1):
+                    b2 = b.fork() if ncalls < hi else b
+                    if hi > lo:
+                        b2.label("%d call(s)" % ncalls)
+                    local = self.local_trace(ncalls, "%s@L%d!" % (name, ln))
+                    before = list(b2.pc)
+                    saved, b2.trace = b2.trace, local
+                    for sx in spec.get("state", []):
+                        if INTERNAL_TRACE.search(sx):
+                            continue
+                        z, facts = self.spec.evaluate_bool(self, sx, b2, pre, dict(env, exc=exc))
+                        b2.pc.extend(facts)
+                        b2.assume(z)
+                    b2.trace = saved
+                    if self.feasible(b2):
+                        if not broad:
+                            # (for "some exception" entries the state clauses also select which representative
+                            # class applies, so an infeasible combination is expected there)
+                            self.canary(b2, "L%d:%s raises %s" % (ln, name, ename), before)
+                        if not c.effect_free:
+                            b2.trace.append(("Callee", name, dict(env), "raise:" + ename, local))
+                        yield b2, Raised(ecls, exc)
         # normal exit
         if beh.noreturn:
             return
@@ -1641,13 +1766,33 @@ class Executor(object):
             self.type_invariants(ok, [result])
         env2 = dict(env, result=result)
         self.apply_sets(ok, pre, env, beh.sets)
-        before = list(ok.pc)
-        for cname, (expr, props) in beh.ensures.items():
-            z, facts = self.spec.evaluate_bool(self, expr, ok, pre, env2)
-            ok.pc.extend(facts)
-            ok.assume(z)
-        self.canary(ok, "L%d:%s returns" % (ln, name), before)
-        yield ok, result
+        nrm = (beh.effects or {}).get("normal", 0)
+        nlo, nhi = nrm if isinstance(nrm, tuple) else (nrm, nrm)
+        for ncalls in range(nlo, nhi + 1):
+            ok2 = ok.fork() if ncalls < nhi else ok
+            if nhi > nlo:
+                ok2.label("%d call(s)" % ncalls)
+            before = list(ok2.pc)
+            local = self.local_trace(ncalls, "%s@L%d!" % (name, ln))
+            saved, ok2.trace = ok2.trace, local
+            for cname, (expr, props) in beh.ensures.items():
+                if INTERNAL_TRACE.search(expr):
+                    continue          # about the callee's own nested calls: an obligation of the callee, no fact for callers
+                z, facts = self.spec.evaluate_bool(self, expr, ok2, pre, env2)
+                ok2.pc.extend(facts)
+                ok2.assume(z)
+            ok2.trace = saved
+            if nhi == nlo:
+                self.canary(ok2, "L%d:%s returns" % (ln, name), before)
+            if not c.effect_free:
+                ok2.trace.append(("Callee", name, dict(env), result, local))
+            yield ok2, result
+
+    def local_trace(self, n, tag):
+        """the callee's own Call events as seen from a call site: n events with unknown components, constrained
+        only by what the callee's contract says about them"""
+        return [("Call", fresh(tag + "fn", Val), fresh(tag + "args", VL), fresh(tag + "res", Val), fresh(tag + "kw", Val))
+                for _ in range(n)]
 
     def havoc_modifies(self, st, env, modifies, tag):
         tmp = State()
@@ -1666,6 +1811,8 @@ class Executor(object):
                 st.heap[key] = SBytes(fresh("joined~%s" % tag, Bytes))
             elif fld == "n":
                 st.heap[key] = SInt(fresh("n~%s" % tag, Int))
+            elif fld in ("map", "has") and objs.get(oid) is not None and objs[oid].kind == "dict":
+                st.heap[key] = SArr(fresh("%s~%s" % (fld, tag), z3.ArraySort(Val, Val if fld == "map" else Bool)))
             else:
                 obj = objs.get(oid)
                 srt = self.field_sort(obj, fld) if obj is not None else None
